@@ -202,6 +202,53 @@ theorem c18_rebuild_keeps_every_entry (s : St) (c : Nat) :
       (∀ e ∈ evicted s c, e.inMap = true → e.cache = c → copied e = true) :=
   ⟨cacheCleanup_heap s c, recreate_eq _ _, fun _ _ _ _ => rfl⟩
 
+/-- **a failed load leaves nothing behind, at the loader boundary.**  A loader that cannot produce its block (read
+error, empty block: `c18_x_index_loaders_fail_inside_the_cache_call`) ends with a panic inside the cache call, i.e. the
+label `finish t .panic`: nothing is logged as produced, the entry is abandoned and in no map, and if it was the key's
+entry the next lookup of that key loads again - restated from `c18_no_poison` for the sequential case the harness
+oracle `cache.indexloaders.property` exercises (fault, then the same lookup on the complete file). -/
+theorem c18_failed_load_is_retried (cfg : Cfg) {s s1 s2 : St} {c k : Nat} {o1 o2 : Out} (hr : Reach cfg s)
+    (hidle : s.pc 0 = .idle) (hc : c < s.ncaches) (hrel : s.released c = false) (hnone : lookup s.heap c k = none)
+    (h1 : step cfg s (.get 0 c k) = some (s1, o1)) (h2 : step cfg s1 (.finish 0 .panic) = some (s2, o2)) :
+    o1 = .loading ∧ o2 = .panic ∧ s2.produced = s.produced ∧ lookup s2.heap c k = none ∧
+      ∃ s3, step cfg s2 (.get 0 c k) = some (s3, .loading) := by
+  have hacq : acquire s 0 c k =
+      (setPc { s with heap := s.heap ++ [⟨c, k, .loading, 0, s.cur c, 0, false, true⟩] } 0 (.loading c k s.heap.length),
+       .loading) := by
+    unfold acquire; rw [hnone]
+  simp only [step, hidle, hc, hrel, and_self, if_true, hacq, Option.some.injEq, Prod.mk.injEq] at h1
+  obtain ⟨hs1, ho1⟩ := h1
+  have hr1 : Reach cfg s1 := Reach.step hr (l := .get 0 c k) (o := o1) (by
+    simp only [step, hidle, hc, hrel, and_self, if_true, hacq, ← hs1, ← ho1])
+  have hpc1 : s1.pc 0 = .loading c k s.heap.length := by rw [← hs1, setPc_pc]; simp
+  have hl1 : lookup s1.heap c k = some s.heap.length := by
+    have hv1 := reach_vinv cfg hr1
+    obtain ⟨e, he, hce, hke, -⟩ := hv1.loading_own 0 c k _ hpc1
+    have hin : e.inMap = true := by
+      rw [← hs1] at he
+      have : (s.heap ++ [(⟨c, k, .loading, 0, s.cur c, 0, false, true⟩ : Entry)])[s.heap.length]? = some e := he
+      rw [List.getElem?_append_right (Nat.le_refl _)] at this
+      simp at this; rw [← this]
+    exact lookup_eq_of_uniq (reach_uniq cfg hr1) he hin hce hke
+  have hnp := c18_no_poison cfg hr1 hpc1 (Or.inr rfl) h2
+  obtain ⟨ho2, hprod, hpcs, -, -, hlk⟩ := hnp
+  have hlk2 := hlk hl1
+  refine ⟨ho1.symm, by simpa using ho2, by rw [hprod, ← hs1]; rfl, hlk2.1, ?_⟩
+  have hidle2 : s2.pc 0 = .idle := by
+    simp only [step, hpc1, Option.some.injEq, Prod.mk.injEq] at h2
+    rw [← h2.1]
+    have hv1 := reach_vinv cfg hr1
+    obtain ⟨e, he, -⟩ := hv1.loading_own 0 c k _ hpc1
+    unfold recover; rw [he]; simp only; rw [setPc_pc]; simp
+  have hmv : s2.mview = s.mview := by
+    simp only [step, hpc1, Option.some.injEq, Prod.mk.injEq] at h2
+    rw [← h2.1, recover_mview, ← hs1]; rfl
+  have hn2 : s2.ncaches = s.ncaches := congrArg MView.ncaches hmv
+  have hr2 : s2.released c = false := by
+    have : s2.relL = s.relL := congrArg MView.relL hmv
+    simp only [St.released, this]; exact hrel
+  exact hlk2.2 0 hidle2 hr2 (by rw [hn2]; exact hc)
+
 /-! ## management (all interleavings) -/
 
 /-- **managed.**  In every reachable state every cache that was not released is in the cleaner's bucket list and
@@ -549,6 +596,26 @@ theorem c18_x_loader_fresh_buffer :
     loaderDst = ["dst, err := docBlock.DecompressTo(make([]byte, docBlock.RawLen()))"] ∧ loaderPayloadCalls = 0 ∧
     decompressToNoCodec = ["if b.Codec() == CodecNo", "dst = util.EnsureSliceSize(dst, len(payload))",
       "copy(dst, payload)", "return dst, nil"] := by decide
+
+/-- at the boundary between the sealed-index loaders and the cache an empty / unreadable block is a FAILED load
+(label `finish t .panic` of the model, after which `c18_no_poison` applies): the loaders run inside the cache call
+(`idsLoaderCalls`) and panic there.  Two known shapes: all three loaders do (after /verif/fixes/
+C18-index-loaders-failed-load.patch), or only `loadMIDBlock` does (before it: failed RIDs / params loads are cached as
+empty entries - harness class `failed-load-poisons-cache`). -/
+theorem c18_x_index_loaders_fail_inside_the_cache_call :
+    idsLoaderCalls = ["GetMIDsBlock: il.cache.MIDs.Get", "GetMIDsBlock: il.loadMIDBlock", "GetRIDsBlock: il.cache.RIDs.Get",
+      "GetRIDsBlock: il.loadRIDBlock", "GetParamsBlock: il.cache.Params.Get", "GetParamsBlock: il.loadParamsBlock"] ∧
+    (idsLoadersFailOnEmpty = ["loadMIDBlock: if err != nil || len(data) == 0",
+        "loadParamsBlock: if err != nil || len(data) == 0", "loadRIDBlock: if err != nil || len(data) == 0"] ∨
+      idsLoadersFailOnEmpty = ["loadMIDBlock: if len(data) == 0"]) := by decide
+
+/-- the token table stored in the cache owns its strings: field names, `MinVal`, `MaxVal` are `string(...)` copies of
+the read buffer, which `readBlock` reuses for the next block of the table -/
+theorem c18_x_token_table_owns_its_strings :
+    tableLoaderStrings = ["fieldName := string(unpacker.GetBinary())", "minVal := unpacker.GetBinary()",
+      "field.MinVal = string(minVal)", "e.MaxVal = string(unpacker.GetBinary())"] ∧
+    tableLoaderReadBlock = ["block, _, err := l.reader.ReadIndexBlock(l.i, l.buf)", "call l.reader.ReadIndexBlock",
+      "l.buf = block"] := by decide
 
 /-- the cache budget as modelled by `SV.Budget`: weights and order of the layers, the 0.9 / 8 / 0.8 constants, and the
 sort-cache rule of `FillConfigWithDefault` in one of its two known shapes - `sortCacheCapped` says which one the
